@@ -79,6 +79,28 @@ def corruption_sites(pf, path, rng, limit, full):
                     lo, hi, nc, hoff, doff, nbytes = scan[fi]
                     out.append((f"remove the last value of fab {fi} (not the last one) in {rel}",
                                 [("remove", dict(file=rel, pos=doff + nbytes - 8, n=8))], False))
+        # a FAB is missing from its binary file (the one stored last, so that nothing else moves) and the level-header entry of
+        # its box repeats the entry of another box of that file: every recorded position holds a FAB header, the file is a
+        # gap-free sequence of FABs - but no FAB of the file names that box
+        cellh0 = open(os.path.join(path, f"Level_{lv}", "Cell_H")).read().split("\n")
+        fod0 = 5 + lvi["nboxes"] + 2
+        for fn in fsel:
+            rel = os.path.join(f"Level_{lv}", fn)
+            scan = oracle.scan_file(os.path.join(path, rel))
+            size = os.path.getsize(os.path.join(path, rel))
+            if len(scan) < 2:
+                continue
+            hoff = scan[-1][3]
+            inb = [b for b in range(lvi["nboxes"]) if cellh0[fod0 + b].split()[1] == fn]
+            last = [b for b in inb if int(cellh0[fod0 + b].split()[2]) == hoff]
+            others = [c for c in inb if c not in last]
+            # (both a lower- and a higher-numbered box as the one whose entry is repeated: which of two boxes recorded at
+            # one position is looked at first depends on their order)
+            for c in ([] if len(last) != 1 else [x for x in (max([o for o in others if o < last[0]], default=None),
+                                                            min([o for o in others if o > last[0]], default=None)) if x is not None]):
+                out.append((f"last fab of {rel} (box {last[0]}) missing, its file entry repeats the entry of box {c}",
+                            [("truncate", dict(file=rel, nbytes=size - hoff)),
+                             ("edit_cellh_line", dict(level=lv, lineno=fod0 + last[0], newtext=cellh0[fod0 + c]))], False))
         # level-header edits
         cellh = open(os.path.join(path, f"Level_{lv}", "Cell_H")).read().split("\n")
         nb = lvi["nboxes"]
@@ -109,6 +131,17 @@ def corruption_sites(pf, path, rng, limit, full):
             out.append((f"level {lv} header: box {b} offset moved by 8",
                         [("edit_cellh_line", dict(level=lv, lineno=first_fod + b,
                                                   newtext=f"FabOnDisk: {fodl[1]} {int(fodl[2]) + 8}"))], False))
+        # a box whose file entry repeats the entry of ANOTHER box of the same binary file (two boxes recorded at one position:
+        # what is read there is the other box's FAB)
+        for b in sorted(set(boxes)):
+            fb = cellh[first_fod + b].split()[1]
+            others = [c for c in range(nb) if c != b and cellh[first_fod + c].split()[1] == fb and
+                      (tuple(lvi["indexes"][c][0]), tuple(lvi["indexes"][c][1])) != (tuple(lvi["indexes"][b][0]), tuple(lvi["indexes"][b][1]))]
+            lowhigh = [x for x in (max([o for o in others if o < b], default=None), min([o for o in others if o > b], default=None))
+                       if x is not None]
+            for c in (others if full else lowhigh):
+                out.append((f"level {lv} header: file entry of box {b} repeats the entry of box {c}",
+                            [("edit_cellh_line", dict(level=lv, lineno=first_fod + b, newtext=cellh[first_fod + c]))], False))
         # the box stored FIRST in a binary file (true offset 0): recorded a little inside its own FAB header line
         firsts = [b for b in range(nb) if int(cellh[first_fod + b].split()[2]) == 0]
         for b in (firsts if full else ([rng.choice(firsts)] if firsts else [])):
@@ -368,8 +401,13 @@ def read_everything(path, limit, fails, desc):
                     sc = _scan_by_text(fpath)
                     scans[fpath] = sc
                 hits = [s for s in sc if tuple(s[0]) == tuple(int(x) for x in lo) and tuple(s[1]) == tuple(int(x) for x in hi)]
+                if len(hits) == 0:
+                    # the reader returned values for this box, and no FAB of the file it is recorded in names its index range
+                    fails.append({"what": "accepted by taste and read without error, but no FAB of the box's binary file names its index range",
+                                  "call": desc, "detail": f"level {lv} box {b}: range {tuple(lo)}..{tuple(hi)} in {os.path.basename(fpath)}"})
+                    return
                 if len(hits) != 1:
-                    continue
+                    continue        # (several FABs name the range: which one 'the' FAB is stays open)
                 _, _, nc, hoff, doff, nbytes = hits[0]
                 if nbytes != int(np.prod(shape)) * 8:
                     fails.append({"what": "accepted by taste but the FAB naming a box's index range does not hold the values of a box "
